@@ -145,3 +145,25 @@ package netpoll
 //@   requires e != nil
 //@   ensures e.no == ErrEOF && (target == iface(ErrEOF) || target == iface(ErrConnClosed)) ==> result
 //@   ensures e.no == ErrConnClosed && target == iface(ErrConnClosed) ==> result
+
+// ---- the peer has closed (hang-up seen by the poller), the user has not: buffered bytes can still be read, then reads fail with ErrEOF ----
+//@ pred cpeer(c *connection) = connok(c) && c.keychain[closing] == 2 && c.inputBuffer.length >= 0 && (c.readTimer != nil ==> c.readTimer.tstate == 0)
+//@ func (*connection).waitReadWithTimeout @peerclosed
+//@   property C12
+//@   requires cpeer(c) && !wrBlocked
+//@   ensures cpeer(c) && c.inputBuffer.length == old(c.inputBuffer.length) && !wrBlocked
+//@   ensures n <= old(c.inputBuffer.length) ==> err == nil
+//@   ensures n > old(c.inputBuffer.length) ==> errkind(err, ErrEOF)
+//@   modifies c.readTimer, time.Timer.tstate
+//@   ghost before recv readTrigger#1: wrBlocked = true
+//@   loop 1 invariant connok(c) && c.keychain[closing] == 2 && c.inputBuffer.length == old(c.inputBuffer.length) && c.readTimer != nil && c.readTimer.tstate == 1 && err == nil && !wrBlocked
+//@ func (*connection).waitRead @peerclosed
+//@   property C12
+//@   uses (*connection).waitReadWithTimeout @peerclosed
+//@   requires cpeer(c) && !wrBlocked
+//@   ensures cpeer(c) && c.inputBuffer.length == old(c.inputBuffer.length) && !wrBlocked
+//@   ensures n <= old(c.inputBuffer.length) ==> err == nil
+//@   ensures n > old(c.inputBuffer.length) ==> errkind(err, ErrEOF)
+//@   modifies c.waitReadSize, c.readTimer, time.Timer.tstate
+//@   ghost before recv readTrigger#1: wrBlocked = true
+//@   loop 1 invariant cpeer(c) && c.inputBuffer.length == old(c.inputBuffer.length) && !wrBlocked
